@@ -53,7 +53,7 @@ MUT_CONTAINERS = re.compile(
 )
 
 
-SELECTOR = re.compile(r"^std::iter::Iterator::(filter|skip_while|take_while|inspect)$|^std::option::Option::<T>::filter$")
+SELECTOR = re.compile(r"^std::iter::Iterator::(filter|skip_while|take_while|inspect|find|rfind)$|^std::option::Option::<T>::filter$")
 
 
 def transparent(t):
